@@ -427,6 +427,21 @@ impl C18 {
                 cx.fail(format!("C18|repeat|outputs-differ:{}", ["loco_sim", "consist_sim", "set_speed", "speed_limited", "est_times", "dispatch", "path_profile", "train_params"][case.kind as usize % 8]), format!("run {} on a fresh thread: {d}", rep + 2).chars().take(500).collect::<String>());
             }
         }
+        // the same scenario inside rayon pools of other sizes (any code that happens to use the
+        // current pool must not let its size show in the result)
+        for workers in [1usize, 3, 8] {
+            let Ok(pool) = rayon::ThreadPoolBuilder::new().num_threads(workers).build() else { continue };
+            let c = case.clone();
+            match pool.install(move || catch(|| run_once(&c))) {
+                Ok(Ok(v)) => {
+                    if let Some(d) = first_diff(&first, &v, "") {
+                        cx.fail(format!("C18|pool|outputs-differ-with-worker-count:{}", ["loco_sim", "consist_sim", "set_speed", "speed_limited", "est_times", "dispatch", "path_profile", "train_params"][case.kind as usize % 8]), format!("inside a pool of {workers} worker(s): {d}").chars().take(500).collect::<String>());
+                    }
+                }
+                Ok(Err(e)) => cx.fail("C18|pool|run-errs-inside-a-pool", format!("{workers} workers: {e}").chars().take(300).collect::<String>()),
+                Err(p) => cx.fail("C18|pool|run-unwinds-inside-a-pool", format!("{workers} workers: {}", p.msg)),
+            }
+        }
         if case.other_process {
             match run_in_child(case) {
                 Some(out) if out.starts_with("OUTPUT ") => {
@@ -469,7 +484,7 @@ impl Property for C18 {
     }
     crate::typed_property!(C18, C18Case);
     fn rule(&self) -> String {
-        "scenario kind in {locomotive sim, consist sim, set-speed, speed-limited, make_est_times, run_dispatch (>= 3 trains), path profile build, train params / builder parts}: run three times on equal inputs, runs 2 and 3 on fresh threads (fresh per-thread hash keys, after a generated amount of hashing activity); the complete outputs (whole simulation objects with histories, est-time nets, timed paths) must be identical value by value; 12 % of these cases are additionally run once in a fresh process and the printed outputs compared character by character; parallel batch: 1-12 different locomotive simulations (40 % with one inadmissible trace) walked serially and in rayon pools of 1,2,3,5,8,16 workers x 3 repetitions: every element == its solo walk, a failure must be reported with the index of an element that fails solo, every element is untouched or equal to its solo outcome and its input trace is unchanged. Non-trivial: batch with >= 3 distinct elements, dispatch with >= 3 trains, any other kind".into()
+        "scenario kind in {locomotive sim, consist sim, set-speed, speed-limited, make_est_times, run_dispatch (>= 3 trains), path profile build, train params / builder parts}: run three times on equal inputs, runs 2 and 3 on fresh threads (fresh per-thread hash keys, after a generated amount of hashing activity); the complete outputs (whole simulation objects with histories, est-time nets, timed paths) must be identical value by value; every case is run again inside rayon pools of 1, 3 and 8 workers, and 12 % of these cases are additionally run once in a fresh process and the printed outputs compared character by character; parallel batch: 1-12 different locomotive simulations (40 % with one inadmissible trace) walked serially and in rayon pools of 1,2,3,5,8,16 workers x 3 repetitions: every element == its solo walk, a failure must be reported with the index of an element that fails solo, every element is untouched or equal to its solo outcome and its input trace is unchanged. Non-trivial: batch with >= 3 distinct elements, dispatch with >= 3 trains, any other kind".into()
     }
     fn assumptions(&self) -> Vec<String> {
         vec![
